@@ -784,7 +784,7 @@ func checkCtypeFlow(c *Ctx, set []*ssa.Function, isSource func(ssa.Value) bool, 
 					}
 					if collectionCtors[name] {
 						list := x.Call.Args[0]
-						if nonEmptyGuard(r, list) || madeNonEmpty(r, list) {
+						if nonEmptyGuard(r, list) || madeNonEmpty(r, list) || appendedNonEmpty(list, map[ssa.Value]bool{}) {
 							return "via " + name, true, "list argument is provably non-empty (dominating guard), so the constructor derives the type from typed members"
 						}
 						return "via " + name, false, "collection constructor over a possibly empty list yields an XY geometry regardless of " + srcDesc + "; one such empty member strips Z/M from its siblings"
@@ -910,6 +910,35 @@ func addrIsRead(v ssa.Value) bool {
 		case ssa.CallInstruction:
 			return true
 		}
+	}
+	return false
+}
+
+// appendedNonEmpty: the list is the result of append(x, e...) with at least
+// one element on every incoming path (loop phis are handled inductively).
+func appendedNonEmpty(v ssa.Value, visiting map[ssa.Value]bool) bool {
+	v = stripLoad(v)
+	if visiting[v] {
+		return true
+	}
+	visiting[v] = true
+	switch x := v.(type) {
+	case *ssa.Call:
+		if b, ok := x.Call.Value.(*ssa.Builtin); ok && b.Name() == "append" && len(x.Call.Args) == 2 {
+			if sl, ok := x.Call.Args[1].(*ssa.Slice); ok {
+				if _, isAlloc := sl.X.(*ssa.Alloc); isAlloc {
+					return true // append(x, elem): a literal element list has >= 1 element
+				}
+			}
+			return appendedNonEmpty(x.Call.Args[0], visiting)
+		}
+	case *ssa.Phi:
+		for _, e := range x.Edges {
+			if !appendedNonEmpty(e, visiting) {
+				return false
+			}
+		}
+		return len(x.Edges) > 0
 	}
 	return false
 }
